@@ -159,7 +159,7 @@ def month(m):
 
     """
     if is_int(m):
-        return m
+        return int(m) # a numpy integer of a small width would carry its width into the year arithmetic of ym
     elif is_float(m) and int(m) == m:
         return int(m)
     elif is_str(m):
@@ -216,7 +216,7 @@ def _ymd(y,m,d):
     if d>1500 and d<3000 and y>0 and y<32 and m>0 and m<13:
         y,d = d,y
     y,m = ym(y,m)
-    d = int(d) if is_float(d) and int(d) == d else d
+    d = int(d) if is_int(d) or (is_float(d) and int(d) == d) else d
     return datetime.datetime(y,m,1) + (d-1) * DAY
 
 def num2dt(n):
